@@ -1484,9 +1484,21 @@ fn format_generic_parameter(
     let default_type = match (generic_parameter.equals(), generic_parameter.default_type()) {
         (Some(equals), Some(default_type)) => {
             let equals = fmt_symbol!(ctx, equals, " = ", shape);
-            let (equals, default_type) =
-                attempt_assigned_type_tactics(ctx, equals, default_type, shape);
-            Some((equals, default_type))
+            if let GenericParameterInfo::Variadic { .. } = generic_parameter.parameter() {
+                // The default of a variadic parameter is a type pack: the parentheses of a pack
+                // with a single type [`T... = (string)`] are not redundant
+                let default_type = format_type_info_internal(
+                    ctx,
+                    default_type,
+                    TypeInfoContext::new().mark_within_generic(),
+                    shape,
+                );
+                Some((equals, default_type))
+            } else {
+                let (equals, default_type) =
+                    attempt_assigned_type_tactics(ctx, equals, default_type, shape);
+                Some((equals, default_type))
+            }
         }
         (None, None) => None,
         _ => unreachable!("have generic parameter default type with no equals or vice versa"),
